@@ -357,6 +357,85 @@ fn c18_full_bundle(seed: u64) -> Acc {
     acc
 }
 
+/// Directed re-range scenario: three rewards of which every subset emits (so that an idle slot sits in front of
+/// an emitting one), a position earns, is emptied and paid out completely, and its range is reset; every step
+/// goes through the C18 monitor (all checkpoints of a re-ranged position are zero).
+fn c18_reset_after_rewards(seed: u64) -> Acc {
+    use crate::ix::build as b;
+    use crate::monitors::c18::C18;
+    use crate::world::*;
+    use solana_program::system_program;
+    let mut acc = Acc::default();
+    let mut mon = C18;
+    for mask in 0..8u32 {
+        let mut w = World::new(crate::rnd::rng(seed ^ mask as u64));
+        let c = w.add_config(300);
+        let u = w.add_user();
+        let (m1, m2) = (w.add_spl_mint(6), w.add_spl_mint(6));
+        let Ok(p) = w.add_pool(c, m1, m2, 64, 3000, 1u128 << 64, false) else {
+            acc.count("harness_errors");
+            continue;
+        };
+        let mut run = |w: &mut World, ix: crate::ix::Ix, acc: &mut Acc| -> bool {
+            let o = w.exec(ix);
+            acc.evaluations += 1;
+            crate::hist::Monitor::after(&mut mon, w, &o, acc);
+            o.ok()
+        };
+        let mut ok = true;
+        for k in 0..3u8 {
+            let mint = w.add_spl_mint(6);
+            let (ix, vault) = w.init_reward_ix(p, k, mint);
+            ok &= run(&mut w, ix, &mut acc);
+            w.set_token_balance(vault, 1_000_000_000_000);
+            w.pools[p].rewards.push((mint, vault));
+        }
+        for k in 0..3u8 {
+            if mask & (1 << k) != 0 {
+                let ix = w.set_emissions_ix(p, k, (k as u128 + 1) << 64);
+                ok &= run(&mut w, ix, &mut acc);
+            }
+        }
+        w.ensure_tick_array(p, -128, mask & 1 == 0);
+        w.ensure_tick_array(p, 128, mask & 1 == 0);
+        let (ix, info) = w.open_position_ix(p, u, -128, 128, mask & 2 == 0);
+        ok &= run(&mut w, ix, &mut acc);
+        w.positions.push(info.clone());
+        let i = w.positions.len() - 1;
+        let ix = w.modify_v2(i).increase_liquidity_v2(1_000_000, u64::MAX, u64::MAX, None);
+        ok &= run(&mut w, ix, &mut acc);
+        w.advance_clock(100);
+        let ix = w.swap_ix(p, u, 5_000, 0, 0, true, true, true);
+        ok &= run(&mut w, ix, &mut acc);
+        w.advance_clock(50);
+        let ix = w.update_fees_ix(i);
+        ok &= run(&mut w, ix, &mut acc);
+        let ix = w.modify_v1(i).decrease_liquidity(1_000_000, 0, 0);
+        ok &= run(&mut w, ix, &mut acc);
+        let ix = w.collect_fees_ix(i, mask & 4 == 0);
+        ok &= run(&mut w, ix, &mut acc);
+        for k in 0..3u8 {
+            let ix = w.collect_reward_ix(i, k);
+            ok &= run(&mut w, ix, &mut acc);
+        }
+        let pre = w.bank.data(&info.position).and_then(crate::codec::Position::decode).unwrap_or_default();
+        let nonzero: Vec<bool> = pre.reward_infos.iter().map(|r| r.growth_inside_checkpoint != 0).collect();
+        let ix = b::ResetPositionRange { funder: ADMIN, position_authority: w.users[u].key, whirlpool: w.pools[p].key, position: info.position, position_token_account: info.token_account, system_program: system_program::ID }.ix(256, 512);
+        let reset_ok = run(&mut w, ix, &mut acc);
+        acc.situation(format!("directed_reset:emitting_mask_{mask}:checkpoints_before_{nonzero:?}:{reset_ok}"));
+        if ok && reset_ok {
+            acc.count("directed_resets_after_rewards");
+            if nonzero.iter().enumerate().any(|(k, nz)| *nz && nonzero[..k].iter().any(|e| !*e)) {
+                acc.count("directed_resets_with_idle_slot_in_front");
+            }
+        } else {
+            acc.notes.push(format!("HARNESS-ERROR directed reset scenario (mask {mask}) did not run to the end"));
+            acc.count("harness_errors");
+        }
+    }
+    acc
+}
+
 pub fn c18(tier: Tier, seed: u64) -> i32 {
     use crate::monitors::c18::C18;
     let mut rep = Report::new("C18", tier, seed);
@@ -371,8 +450,11 @@ pub fn c18(tier: Tier, seed: u64) -> i32 {
     );
     let mut acc = acc;
     acc.merge(c18_full_bundle(seed ^ 0x18));
+    acc.merge(c18_reset_after_rewards(seed ^ 0x1818));
     rep.acc = acc;
     rep.floor("bundles_filled_completely", 1);
+    rep.floor("directed_resets_after_rewards", 8);
+    rep.floor("directed_resets_with_idle_slot_in_front", 3);
     rep.floor("full_bundle_delete_refusals", 7);
     rep.floor("empty_bundle_deleted", 1);
     rep.floor("opens_seen", 3000);
